@@ -74,12 +74,34 @@ class _VSelector:
         pass
 
 
+class VTask(asyncio.Task):
+    """A task that hashes by its creation number: sets of tasks - ``asyncio.all_tasks`` in
+    the final sweep of ``asyncio.run``, the runner's own set of payload tasks - iterate in
+    an order that does not depend on memory addresses (which differ from run to run)"""
+
+    _cosched_counter = [0]
+
+    def __init__(self, coro, **kwargs):
+        # the base class hashes the task while it registers it: number it first
+        VTask._cosched_counter[0] += 1
+        self._cosched_seq = VTask._cosched_counter[0]
+        super().__init__(coro, **kwargs)
+
+    def __hash__(self):
+        return self._cosched_seq
+
+
+def _task_factory(loop, coro, **kwargs):
+    return VTask(coro, loop=loop, **kwargs)
+
+
 class VLoop(asyncio.base_events.BaseEventLoop):
     """The stock event loop machinery on top of virtual time and a scheduler wait"""
 
     def __init__(self):
         super().__init__()
         self._selector = _VSelector(self)
+        self.set_task_factory(_task_factory)
 
     def time(self):
         sched = S.ACTIVE
@@ -334,8 +356,52 @@ def _collect_if_needed():
     Reference counting frees them at once unless they sit in a cycle; the (slow) cyclic
     collector is only run when a unit is still registered, and every 50 executions."""
     _executions[0] += 1
+    # a Python configuration stays in sys.modules for the life time of a daemon process and
+    # keeps its pipeline alive: here one process runs many daemons, one after the other
+    for name in [name for name in sys.modules if name.startswith("<cobald config ")]:
+        module = sys.modules.pop(name, None)
+        if module is not None:
+            module.__dict__.clear()
     if _executions[0] % 50 == 0 or _leftover_units():
         gc.collect()
+
+
+_unit_patch = []
+
+
+def _number_service_units():
+    """``ServiceUnit.units()`` is a *set* of units and the polling loop starts them in its
+    iteration order, which follows memory addresses.  Number the units at creation and hash
+    by that number, so that the order is the creation order in every execution (fail-soft;
+    left alone if the class brings its own __hash__ / __eq__)."""
+    try:
+        from cobald.daemon.runners.service import ServiceUnit
+
+        if "__hash__" in ServiceUnit.__dict__ or "__eq__" in ServiceUnit.__dict__:
+            return
+        original = ServiceUnit.__init__
+        counter = [0]
+
+        def __init__(self, *args, **kwargs):
+            counter[0] += 1
+            self._cosched_seq = counter[0]
+            original(self, *args, **kwargs)
+
+        ServiceUnit.__init__ = __init__
+        ServiceUnit.__hash__ = lambda self: getattr(self, "_cosched_seq", 0)
+        _unit_patch.append((ServiceUnit, original))
+    except Exception:  # noqa: B902
+        pass
+
+
+def _restore_service_units():
+    while _unit_patch:
+        cls, original = _unit_patch.pop()
+        cls.__init__ = original
+        try:
+            del cls.__hash__
+        except AttributeError:
+            pass
 
 
 _guard_cells = []
@@ -390,6 +456,7 @@ def install(scheduler: S.Scheduler):
     trio_run_module.Deadlines.add = _deadlines_add
     _deadline_counter[0] = 0
     S.AThread._cosched_counter[0] = 0
+    VTask._cosched_counter[0] = 0
     trio_threads._send_message_to_trio = _send_message_to_trio
     TrioToken.run_sync_soon = _run_sync_soon
     # trio.to_thread worker threads: controlled, and a fresh cache per execution (the
@@ -400,12 +467,14 @@ def install(scheduler: S.Scheduler):
     threading.excepthook = lambda args: None
     asyncio.set_event_loop_policy(VPolicy())
     _control_accept_guard()
+    _number_service_units()
     S.ACTIVE = scheduler
 
 
 def uninstall():
     S.ACTIVE = None
     _restore_accept_guard()
+    _restore_service_units()
     threading.Lock = REAL["threading.Lock"]
     threading._allocate_lock = REAL["threading._allocate_lock"]
     threading.Event = REAL["threading.Event"]
